@@ -32,6 +32,10 @@ def handleWriteMon (s : H2V.Spec.WriteMon.St) (ws : List String) : Option (H2V.S
 def handleStateInv (ws : List String) : Option String :=
   match ws with
   | ["mon_st", role, rm, digest] => some (showV (H2V.Spec.StateInv.check (role == "server") rm.toNat? digest))
+  | ["mon_held", sid, held, digest] =>
+    match sid.toNat?, held.toNat? with
+    | some s, some h => some (showV (H2V.Spec.StateInv.heldCheck digest s h))
+    | _, _ => none
   | _ => none
 
 def stepLine (st : AllState) (line : String) : AllState × String :=
